@@ -36,6 +36,7 @@ INF = float("inf")
 PS = [1, 2, INF]
 
 OBLIGATIONS = {
+    "matching_after_a_refused_matching": "a matching judged right after one that was refused (empty second track, another dimension) in the same process",
     "first_track_closed_by_loop": "a closed first track built with Track.loop(add=True)",
     "points_a_few_hundredths_of_a_millimetre_apart": "tracks on a lattice of 0.03 mm step (distinct points, closer than 1e-4 m) were matched",
     "long_pair": "a pair whose distance table has more than 128 cells (12 x 11, 7 x 19, 16 x 16, 3 x 50) was matched",
@@ -319,6 +320,20 @@ def check_one(site, mode, t1, t2, X1, X2, p, dim, case, ctx, tie, keep=None, pco
         ctx.violation("%s/%s/coupling-cost-differs-from-score" % (site, tcls), case,
                       {"score": score, "coupling_cost": real, "optimum": best, "links_i2_j1": [list(l) for l in path]})
         return score
+    # the 'diff' feature of the matching, where it can be read as a number: the distance (in the requested dimension) from the
+    # fix to ONE of the fixes it is linked with - which one is the implementation's choice
+    try:
+        diffs = [float(m.getObsAnalyticalFeature("diff", j)) for j in range(n1)]
+    except Exception:
+        diffs = None
+    if diffs is not None:
+        ctx.count("diff_feature_compared")
+        for j in range(n1):
+            mine = [dist(X1[j], X2[i], dim) for (i, jj) in path if jj == j]
+            if mine and not any(close(diffs[j], d) for d in mine):
+                ctx.violation("%s/diff-feature-is-not-the-distance-to-a-linked-fix" % site, case,
+                              {"fix": j, "diff": diffs[j], "distances_to_its_linked_fixes": mine})
+                return score
     ctx.outcome((site, n1, n2, len(path), str(pp)))
     if keep is not None:
         keep.append(m)
@@ -376,6 +391,13 @@ def check_pair(variant, A, B, p, dim, ctx):
                           make_track(variant, P2), X1, X2, p, dim, dict(c, looped=True), ctx, tie)
                 ctx.count("matchings_executed")
                 ctx.oblige("first_track_closed_by_loop")
+            if order == "AB" and mname in ("dtw", "fdtw"):
+                # a matching that is refused (an empty second track, asked with ANOTHER dimension), then the ordinary one
+                guard(CMP.match, make_track(variant, P1), Track(), MODES[mname], 1, 1 if dim != 1 else 3, False, False)
+                check_one(SITE[mname] + "/after-a-refused-matching", MODES[mname], make_track(variant, P1), make_track(variant, P2),
+                          X1, X2, p, dim, dict(c, after_refused=True), ctx, tie)
+                ctx.count("matchings_executed")
+                ctx.oblige("matching_after_a_refused_matching")
             if order == "AB" and mname in ("dtw", "fdtw") and p != INF:
                 # the exponent as a numpy integer and as a numpy float (what np.arange / an array element hands over)
                 for pname, pconv in (("numpy.int64", np.int64), ("numpy.float64", np.float64)):
